@@ -116,7 +116,7 @@ type Expr struct {
 	a, b  *Expr
 	c     *Expr
 	args  []*Expr
-	val   Value
+	lit   cell // xLit: the scalar's bit pattern
 	slot  int
 	fld   *Field
 	swz   [4]uint8
@@ -172,11 +172,11 @@ type Stmt struct {
 type varKind uint8
 
 const (
-	vLocal varKind = iota
-	vRef           // reference (parameter or local) stored in frame.refs
-	vPtr           // pointer variable stored in frame.refs
-	vGlobal        // module-scope constant
-	vTG            // threadgroup variable declared in a kernel body
+	vLocal  varKind = iota
+	vRef            // reference (parameter or local) stored in frame.refs
+	vPtr            // pointer variable stored in frame.refs
+	vGlobal         // module-scope constant
+	vTG             // threadgroup variable declared in a kernel body
 )
 
 // Var is a declared variable or parameter.
@@ -211,9 +211,6 @@ type Func struct {
 	line       int
 	sig        string
 	tmpl       *template
-	reach      []*Func // computed lazily: transitive callees incl. self
-	reachDone  bool
-	hasBarrier bool
 }
 
 type template struct {
